@@ -1,4 +1,5 @@
 import MoSql.Lemmas.ScrubProps
+import MoSql.Lemmas.NormalSimple
 /-!
 C12 — `calls=` and `fmap=` change how applications are written, never what is written.
 -/
@@ -31,5 +32,22 @@ theorem normal_shape (fm : List (String × String)) (op : String) (a : J) (kw : 
       cases hk : J.setKey (p :: ps) (Cfg.rename { mode := .normal, fmap := fm } op) (.marker true) with
       | nil => exact absurd hk this
       | cons q qs => simp [normalShape, hk]
+
+/-- **`calls=normal_op` writes the same tree in another notation** — for every raw parse result of any
+size and depth and every `fmap`: the `normal_op` output and the default output are related by `Conv`,
+the rule-by-rule notation change ({"op": n, "args": […], "kwargs": {…}}  ↔  {n: args unwrapped, **kwargs},
+everything else component-wise).  Partial: calls whose whole argument list is the bare NULL placeholder
+(`f(null)`) are excluded — known finding `normal_op:sole-null-arg`. -/
+theorem normal_is_notation_for_simple (fm : List (String × String)) (r : Raw)
+    (h : noSoleNull { mode := .normal, fmap := fm } r = true) :
+    Conv (scrub { mode := .normal, fmap := fm } r) (scrub { mode := .simple, fmap := fm } r) :=
+  conv_scrub fm r h
+
+/-- the hypothesis is met by nested calls with keyword arguments and NULLs among several arguments,
+and it does exclude `f(null)` -/
+example :
+    noSoleNull { mode := .normal, fmap := [("f", "g")] }
+      (.dict [("select", .call "f" (.list [.call "add" (.list [.str "a", .int 1]) [], .sqlNull]) [("k", .str "v")])]) = true
+    ∧ noSoleNull { mode := .normal, fmap := [] } (.call "f" .sqlNull []) = false := by decide
 
 end MoSql.Props.C12
